@@ -125,6 +125,11 @@ impl Inner {
 				}
 			}
 		}
+		// fairness: a thread inside a polling loop yields to every thread that can make progress
+		let is_poll = |t: &usize| matches!(self.threads[*t], St::Ready(Req::Poll(_)));
+		if v.iter().any(|t| !is_poll(t)) {
+			v.retain(|t| !is_poll(t));
+		}
 		v
 	}
 	fn describe(&mut self, req: &Req) -> String {
@@ -457,5 +462,47 @@ impl Sched for Scheduler {
 	}
 	fn point(&self, label: &str) {
 		Scheduler::point(self, Req::Point(label.to_string()));
+	}
+	fn thread_spawn(&self, name: &str) -> Option<usize> {
+		TID.with(|c| c.get())?;
+		let mut g = self.inner.lock().unwrap();
+		g.threads.push(St::Ready(Req::Start));
+		g.names.push(name.to_string());
+		Some(g.threads.len() - 1)
+	}
+	fn thread_begin(&self, ticket: usize) {
+		TID.with(|c| c.set(Some(ticket)));
+		crate::uni::init_thread();
+		let mut g = self.inner.lock().unwrap();
+		loop {
+			if g.current == Some(ticket) {
+				return;
+			}
+			if g.verdict.is_some() && !matches!(g.verdict, Some(Verdict::Completed)) {
+				drop(g);
+				park_forever();
+			}
+			g = self.cv.wait(g).unwrap();
+		}
+	}
+	fn thread_end(&self) {
+		let t = match TID.with(|c| c.get()) {
+			Some(t) => t,
+			None => return,
+		};
+		let mut g = self.inner.lock().unwrap();
+		g.threads[t] = St::Finished;
+		for ls in g.locks.values_mut() {
+			if ls.writer == Some(t) {
+				ls.writer = None;
+			}
+			ls.readers.retain(|r| *r != t);
+			ls.waiting_writers.remove(&t);
+		}
+		g.resources.retain(|_, h| *h != t);
+		g.current = None;
+		g.dispatch();
+		self.cv.notify_all();
+		TID.with(|c| c.set(None));
 	}
 }
